@@ -222,14 +222,23 @@ Proof.
   unfold p_propagate. rewrite F, A, H. reflexivity.
 Qed.
 
+(** a HUP from the backend closes only when no client byte already taken is
+    waiting to be written to it (or the socket reported an error) *)
+Theorem backend_hup_after_drain :
+  forall p p', pipe_backend_hup p = (p', Close) -> avail_data (fbuf p) = 0 \/ re (be p) = true.
+Proof. exact pipe_backend_hup_close. Qed.
+
 (** halfclose_cuts_reverse (open finding, backend side) REFUTED: a HUP from a
     backend that has only shut down its write side closes the session although
-    client bytes are still buffered toward it *)
+    the client is still sending: bytes that have arrived on the client socket
+    and are not read yet are dropped *)
 Theorem backend_halfclose_cuts_client_refuted :
-  exists p p', pipe_backend_hup p = (p', Close) /\ bst p = CNormal /\ fst_ p = CNormal /\
-               avail_data (fbuf p') = 3 /\ has_back p = true.
+  exists e e', is_pipe e /\ inq (fsock e) = [1;2;3]%N /\ ieof (fsock e) = false /\
+               ready_inner e = (e', Some Close) /\ outq (bsock e') = [].
 Proof.
-  exists (p_fbuf (pipe_new 16 true) (mkbuf 16 0 [1;2;3]%N)). eexists. vm_compute. repeat split; reflexivity.
+  exists (mkenv (SPipe (p_fe (p_be (pipe_new 16 true) (mkrd false false false true)) (mkrd false true false false)))
+                (mksock [1;2;3]%N false false None false []) sock0 16 false []).
+  eexists. split; [eexists; reflexivity|]. vm_compute. repeat split; reflexivity.
 Qed.
 
 (** `printf request | nc` in the model: request and FIN arrive together; one readiness pass
